@@ -161,6 +161,19 @@ def py_floordiv(a, b):
     return z3.If(b > 0, a / b, -((-a) / (-b)) if False else z3.If(a % b == 0, a / b, a / b - 1))
 
 
+_rdiv = z3.Function("rdiv", z3.RealSort(), z3.RealSort(), z3.RealSort())
+
+
+def real_div(x, y):
+    """real division.  By a numeral: z3's own '/'.  By a symbolic term: the function rdiv, known to the
+    solver only through instances of its defining equation y != 0 => rdiv(x,y)*y == x (and derived lemmas)
+    added by spec_function_lemmas - this keeps the VCs division-free (DESIGN 2.5)."""
+    y = z3.simplify(y)
+    if z3.is_rational_value(y) or z3.is_int_value(y):
+        return x / y
+    return _rdiv(z3.simplify(x), y)
+
+
 def as_num(v):
     if isinstance(v, Num):
         return v
@@ -261,6 +274,7 @@ class Ctx:
         s.set("timeout", 2000)
         s.add(*st.pc)
         s.add(cond)
+        s.add(*relevant_defs(list(st.pc) + [cond]))
         t0 = time.time()
         r = s.check()
         self.solver_time += time.time() - t0
@@ -362,7 +376,7 @@ def ground_apps(terms, prefix):
     return out
 
 
-def spec_function_lemmas(hyps, goal):
+def spec_function_lemmas(hyps, goal, nonlinear=True):
     """instances of the defining axioms of recursive spec functions (Sum) at the terms that occur
     in the VC: unfolding at both ends, empty range, and extensionality between pairs of sums."""
     from . import npmodel
@@ -391,43 +405,108 @@ def spec_function_lemmas(hyps, goal):
                                            z3.ForAll([k], z3.Implies(z3.And(k >= a.arg(1), k < a.arg(2)),
                                                                      z3.Select(a.arg(0), k) == z3.Select(b.arg(0), k)))),
                                     a == b))
-    # division by a non-constant term: make the defining equation available in division-free form
-    seen = set()
-    stack = list(hyps) + [goal] + extra
-    while stack:
-        t = stack.pop()
-        if t.get_id() in seen or z3.is_quantifier(t) or not z3.is_app(t):
-            continue
-        seen.add(t.get_id())
-        if t.decl().kind() == z3.Z3_OP_DIV and not z3.is_rational_value(t.arg(1)) and not z3.is_int_value(t.arg(1)):
-            extra.append(z3.Implies(t.arg(1) != 0, t * t.arg(1) == t.arg(0)))
-        stack.extend(t.children())
+    # rdiv(x, y): instances of the defining equation and of derived (valid) facts of real division
+    divs = ground_apps(list(hyps) + [goal] + extra, "rdiv")
+    zero = z3.RealVal(0)
+    for t in divs:
+        x, y = t.arg(0), t.arg(1)
+        if nonlinear:
+            extra.append(z3.Implies(y != 0, t * y == x))
+        extra.append(z3.Implies(z3.And(y > 0, x >= 0), t >= 0))
+        extra.append(z3.Implies(z3.And(y > 0, x <= 0), t <= 0))
+        extra.append(z3.Implies(z3.And(y != 0, x == 0), t == 0))
+        if z3.is_app(y) and y.decl().kind() == z3.Z3_OP_MUL and y.num_args() == 2:
+            p, q = y.arg(0), y.arg(1)
+            extra.append(z3.Implies(z3.And(p != 0, q != 0), t == _rdiv(_rdiv(x, p), q)))
+            if nonlinear:
+                extra.append(z3.Implies(z3.And(p != 0, q != 0), _rdiv(x, p) * p == x))
+                extra.append(z3.Implies(z3.And(p != 0, q != 0), _rdiv(_rdiv(x, p), q) * q == _rdiv(x, p)))
+    for i in range(len(divs)):
+        for j in range(i + 1, len(divs)):
+            a, b = divs[i], divs[j]
+            # same divisor: rdiv is monotone / injective in the numerator
+            extra.append(z3.Implies(z3.And(a.arg(1) == b.arg(1), a.arg(1) > 0),
+                                    z3.And((a.arg(0) <= b.arg(0)) == (a <= b), (a.arg(0) == b.arg(0)) == (a == b))))
     return extra
 
 
 def skolemize(hyps, goal):
     """goal-directed preprocessing: forall-goals get fresh constants, implications move their
-    antecedent to the hypotheses (so that lemma instantiation sees ground terms)."""
+    antecedent to the hypotheses (so that lemma instantiation sees ground terms).  Universally
+    quantified hypotheses whose bound variables carry the same names as the goal's are additionally
+    instantiated at the goal's constants (any instance of a hypothesis is a sound extra hypothesis)."""
     hyps = list(hyps)
+    sk = {}
     for _ in range(12):
         if z3.is_quantifier(goal) and goal.is_forall():
             vs = [z3.Const(fresh_name("sk_" + goal.var_name(i)), goal.var_sort(i)) for i in range(goal.num_vars())]
+            for i, v in enumerate(vs):
+                sk[(goal.var_name(i).split("!")[0], str(goal.var_sort(i)))] = v
             goal = z3.substitute_vars(goal.body(), *reversed(vs))
         elif z3.is_implies(goal):
             hyps.append(goal.arg(0))
             goal = goal.arg(1)
+        elif z3.is_or(goal):
+            parts = goal.children()
+            qs = [p for p in parts if z3.is_quantifier(p) and p.is_forall()]
+            if len(qs) != 1:
+                break
+            for p in parts:
+                if not p.eq(qs[0]):
+                    hyps.append(z3.Not(p))
+            goal = qs[0]
         else:
             break
     return hyps, goal
 
 
-def _check(hyps, goal, lem, ms):
+def relevant_defs(terms):
+    """definitional axioms (values.DEFS) of the computed-sequence symbols occurring in the VC (transitively)"""
+    from . import values
+    if not values.DEFS:
+        return []
+    names = set()
+    seen = set()
+
+    def scan(ts):
+        stack = list(ts)
+        while stack:
+            u = stack.pop()
+            if u.get_id() in seen:
+                continue
+            seen.add(u.get_id())
+            if z3.is_app(u):
+                names.add(u.decl().name())
+                stack.extend(u.children())
+            elif z3.is_quantifier(u):
+                stack.append(u.body())
+    scan(terms)
+    out = []
+    used = set()
+    changed = True
+    while changed:
+        changed = False
+        for nm, ax in values.DEFS:
+            if nm in names and nm not in used:
+                used.add(nm)
+                out.append(ax)
+                scan([ax])
+                changed = True
+    return out
+
+
+def _check(hyps, goal, lem, ms, mbqi=True):
     s = z3.Solver()
     s.set("timeout", max(100, int(ms)))
+    if not mbqi:
+        s.set("smt.mbqi", False)
     s.add(*hyps)
     s.add(z3.Not(goal))
     if lem:
         s.add(*lem)
+    defs = relevant_defs(list(hyps) + [goal] + list(lem or []))
+    if defs:
+        s.add(*defs)
     r = s.check()
     return r, s
 
@@ -438,7 +517,25 @@ def prove(hyps, goal, budget):
     on unknown retry with the quantifier-free hypotheses only (a weaker, hence sound, VC)."""
     t0 = time.time()
     hyps2, goal2 = skolemize(hyps, goal)
+    # phase 0: quantifier-free goal -> try the quantifier-free hypotheses alone (nonlinear steps are much faster
+    # without quantifiers); phase 1/2: E-matching only, without / with the nonlinear lemma instances;
+    # phase 3: with model-based instantiation (the only phase that can return a counter-model)
     lem = spec_function_lemmas(hyps2, goal2)
+    lem0 = spec_function_lemmas(hyps2, goal2, nonlinear=False)
+    qf_goal = not has_quantifier(goal2)
+    if qf_goal:
+        qf = [h for h in hyps2 if not has_quantifier(h)]
+        lemq = [l for l in (lem if goal_is_nonlinear(goal2) else lem0) if not has_quantifier(l)]
+        r, s = _check(qf, goal2, lemq, 1000, mbqi=False)
+        if r == z3.unsat:
+            return "discharged", time.time() - t0, None, "z3 (quantifier-free hypotheses)"
+    r, s = _check(hyps2, goal2, lem0, budget * 250, mbqi=False)
+    if r == z3.unsat:
+        return "discharged", time.time() - t0, None, "z3"
+    if qf_goal:
+        r, s = _check(qf, goal2, lemq, budget * 250, mbqi=False)
+        if r == z3.unsat:
+            return "discharged", time.time() - t0, None, "z3 (quantifier-free hypotheses)"
     r, s = _check(hyps2, goal2, lem, budget * 1000)
     if r == z3.unsat:
         return "discharged", time.time() - t0, None, "z3"
@@ -449,10 +546,28 @@ def prove(hyps, goal, budget):
     qf = [h for h in hyps2 if not has_quantifier(h)]
     if len(qf) < len(hyps2):
         lem2 = [l for l in spec_function_lemmas(qf, goal2)]
-        r2, s2 = _check(qf, goal2, lem2, budget * 500)
+        r2, s2 = _check(qf, goal2, lem2, budget * 500, mbqi=False)
         if r2 == z3.unsat:
             return "discharged", time.time() - t0, None, "z3 (quantifier-free hypotheses)"
     return "undecided", time.time() - t0, None, "z3 unknown: %s" % reason
+
+
+def goal_is_nonlinear(t):
+    """does the goal mention real division by a symbolic term or a product of two non-numerals?"""
+    seen = set()
+    stack = [t]
+    while stack:
+        u = stack.pop()
+        if u.get_id() in seen or not z3.is_app(u):
+            continue
+        seen.add(u.get_id())
+        k = u.decl().kind()
+        if u.decl().name() == "rdiv":
+            return True
+        if k == z3.Z3_OP_MUL and sum(1 for c in u.children() if not (z3.is_rational_value(c) or z3.is_int_value(c))) >= 2:
+            return True
+        stack.extend(u.children())
+    return False
 
 
 def has_quantifier(t):
@@ -472,8 +587,12 @@ def has_quantifier(t):
 
 def to_smt2(hyps, goal):
     s = z3.Solver()
+    hyps, goal = skolemize(hyps, goal)
     s.add(*hyps)
     s.add(z3.Not(goal))
+    lem = spec_function_lemmas(hyps, goal)
+    s.add(*lem)
+    s.add(*relevant_defs(list(hyps) + [goal] + lem))
     return s.to_smt2()
 
 
@@ -718,7 +837,7 @@ class Eval:
             return Num(x * y)
         if isinstance(op, ast.Div):
             self.need("divisor non-zero", st, y != 0, node)
-            return Num(a.real() / b.real())
+            return Num(real_div(a.real(), b.real()))
         if isinstance(op, ast.FloorDiv):
             self.need("divisor non-zero", st, y != 0, node)
             if ints:
@@ -1319,6 +1438,19 @@ class Exec:
         s2.pc.extend(facts)
         return s2
 
+    def snapshot(self, st, names):
+        """loop-head values of the modified variables, visible to hints as _h_<name>"""
+        for nm in names:
+            if nm in st.env:
+                st.env["_h_" + nm] = st.env[nm]
+
+    def hints(self, k, spec, st, node):
+        """auto-active hints: each is proved in the end-of-body state from the previous ones, then assumed"""
+        for i, h in enumerate(spec.get("hints", [])):
+            g = self.sev.spec_bool(h, st)
+            self.ctx.oblig("loop %d: hint [%d]: %s" % (k, i, h), st, g, node, h)
+            st.pc.append(g)
+
     def check_inv(self, tag, spec, st, node):
         for i, inv in enumerate(spec.get("inv", [])):
             g = self.sev.spec_bool(inv, st)
@@ -1333,6 +1465,7 @@ class Exec:
         self.check_inv("loop %d: invariant on entry" % k, spec, st, s)
         head = self.havoc(st, self.modified(s), k)
         self.assume_inv(spec, head)
+        self.snapshot(head, self.modified(s))
         var0 = None
         if "var" in spec:
             var0 = as_num(self.sev.spec_val(spec["var"], head)).t
@@ -1348,6 +1481,7 @@ class Exec:
             b.pc.append(g)
             r = self.block(s.body, [b])
             for e in r["normal"] + r["cont"]:
+                self.hints(k, spec, e, s)
                 self.check_inv("loop %d: invariant preserved" % k, spec, e, s)
                 v1 = as_num(self.sev.spec_val(spec["var"], e)).t
                 self.ctx.oblig("loop %d: variant decreases and is bounded: %s" % (k, spec["var"]), e,
@@ -1381,6 +1515,7 @@ class Exec:
         for nm in self.target_names(s.target):
             head.env.pop(nm, None) if nm not in st.env else None
         self.assume_inv(spec, head)
+        self.snapshot(head, mods)
         out = self.R()
         # body
         if self.ctx.feasible(head, it < N):
@@ -1391,6 +1526,7 @@ class Exec:
             for e in r["normal"] + r["cont"]:
                 e = e.fork()
                 e.env[itname] = Num(it + 1)
+                self.hints(k, spec, e, s)
                 self.check_inv("loop %d: invariant preserved" % k, spec, e, s)
             out["ret"].extend(r["ret"])
             out["normal"].extend(r["brk"])
